@@ -286,6 +286,9 @@ func (m *monitor) block(b *sim.Block, res *sim.BlockRes, dump map[string][]byte)
 			}
 		}
 	}
+	if len(m.dueR[h]) > 0 && m.prev.Bal(dlgrw.DelegPool).Sign() == 0 {
+		m.feats["reward-withdrawal-due-while-the-pool-is-empty"]++
+	}
 	if n := len(m.dueR[h]); n >= 2 {
 		m.feats["reward-withdrawals-of-several-owners-due-in-one-block"]++
 		for _, x := range m.dueR[h] {
@@ -508,6 +511,42 @@ func sameHeight(u *hist.U, w *hist.World, v *dlgrw.View) []txgen.Tx {
 	return txs
 }
 
+// exodus makes EVERY delegator leave: the whole active amount is undelegated and the whole reward balance
+// withdrawn, so that the pool is empty while those entries are pending and when they mature.
+func exodus(u *hist.U, w *hist.World, v *dlgrw.View) []txgen.Tx {
+	var txs []txgen.Tx
+	addrs := map[string]bool{}
+	for a := range v.Active() {
+		addrs[a] = true
+	}
+	for a := range v.RwBalance() {
+		addrs[a] = true
+	}
+	var sorted []string
+	for a := range addrs {
+		sorted = append(sorted, a)
+	}
+	sort.Strings(sorted)
+	for _, a := range sorted {
+		var usr *sim.User
+		for _, x := range w.G.U.Users {
+			if x.Addr.String() == a {
+				usr = x
+			}
+		}
+		if usr == nil {
+			continue
+		}
+		if rw := v.RwBalance()[a]; rw != nil && rw.Sign() > 0 {
+			txs = append(txs, tagged(txgen.DelegWithdrawRewards(usr, usr.Addr, txgen.Amt("OLT", rw), w.Fee, w.Memo()), "exodus"))
+		}
+		if act := v.Active()[a]; act != nil && act.Sign() > 0 {
+			txs = append(txs, tagged(txgen.Undelegate(usr, usr.Addr, txgen.Amt("OLT", act), w.Fee, w.Memo()), "exodus"))
+		}
+	}
+	return txs
+}
+
 var gapsC12 = []int64{1, 2, 5, 5, 5, 17, 60, 3600}
 
 func genParams(rt *rapid.T, h *run.H) (sim.Params, []dlgrw.PrePending) {
@@ -556,7 +595,7 @@ func genParams(rt *rapid.T, h *run.H) (sim.Params, []dlgrw.PrePending) {
 func classify(f map[string]int, c *Case) (string, []string) {
 	var classes []string
 	for _, k := range []string{"matured-undelegation", "matured-reward-withdrawal", "two-ops-one-delegator-one-block", "two-undelegations-one-delegator-one-block",
-		"reward-withdrawals-of-several-owners-due-in-one-block", "zero-entry-among-several-due-in-one-block", "undelegations-of-several-owners-due-in-one-block",
+		"reward-withdrawal-due-while-the-pool-is-empty", "reward-withdrawals-of-several-owners-due-in-one-block", "zero-entry-among-several-due-in-one-block", "undelegations-of-several-owners-due-in-one-block",
 		"credit-in-a-block-with-own-traffic", "donation", "block-not-judged-exactly", "account-not-judged-exactly",
 		"ok:REWARDS_REINVEST_NETWORK_DELEGATE", "ok:REWARDS_WITHDRAW_NETWORK_DELEGATE", "ok:NETWORK_UNDELEGATE", "ok:ADD_NETWORK_DELEGATION"} {
 		if f[k] > 0 {
@@ -601,7 +640,7 @@ func TestC12(t *testing.T) {
 		}
 		flush := u.N(10, "flush") != 0
 		var g *hist.Gen
-		blocks, tail := 0, 0
+		blocks, tail, quiet := 0, 0, 0
 		out, feats := execute(h, c, func(w *hist.World, m *monitor, i int) (hist.Step, bool) {
 			if g == nil {
 				g = &hist.Gen{W: w, T: rt, Hostile: 4, Strange: 5, Kinds: hist.Profiles[prof], Excl: h.Excluded, Seen: map[string]int{}, TagsN: map[string]int{}}
@@ -615,7 +654,12 @@ func TestC12(t *testing.T) {
 			}
 			blocks++
 			var txs []txgen.Tx
-			if u.N(100, "busy") < busyPct {
+			if quiet > 0 {
+				quiet--
+				if u.N(3, "quiet-send") == 0 {
+					txs = []txgen.Tx{g.Send()}
+				}
+			} else if u.N(100, "busy") < busyPct {
 				switch u.N(10, "mode") {
 				case 0, 1, 2, 3, 4:
 					txs = g.DrawTxs(4)
@@ -625,10 +669,14 @@ func TestC12(t *testing.T) {
 						txs = append(txs, g.DrawTxs(2)...)
 					}
 				case 8:
-					if u.N(2, "exact-or-same") == 0 {
+					switch u.N(3, "exact-or-same") {
+					case 0:
 						txs = exactOps(u, w, m.prev)
-					} else {
+					case 1:
 						txs = sameHeight(u, w, m.prev)
+					default:
+						txs = exodus(u, w, m.prev)
+						quiet = int(m.M) + 2 // nobody comes back before those entries have matured
 					}
 				default:
 					txs = append(burst(u, w, m.prev), burst(u, w, m.prev)...)
